@@ -124,7 +124,7 @@ fn impl_decision(carrier: usize, dt: &str, conv: &Conv, lo: f64, hi: f64) -> Res
 }
 
 /// the expected physical range by the property statement, computed independently (f64); None = not evaluated
-/// (any limits are acceptable) ; Err = outside the property's quantifier (b = 0)
+/// (any limits are acceptable: FORM, general RAT_FUNC, and the constant RAT_FUNC with b = 0) ; Err is not produced any more
 fn expected_range(dtlim: (f64, f64), conv: &Conv) -> Result<Option<(f64, f64)>, ()> {
     let (lo, hi) = dtlim;
     Ok(match conv {
@@ -137,7 +137,8 @@ fn expected_range(dtlim: (f64, f64), conv: &Conv) -> Result<Option<(f64, f64)>, 
         Conv::RatFunc(Some(c)) => {
             if c[0] == 0.0 && c[3] == 0.0 && c[4] == 0.0 && c[5] != 0.0 {
                 if c[1] == 0.0 {
-                    return Err(());
+                    // a constant: nothing to invert, not evaluated
+                    return Ok(None);
                 }
                 // INT = (b*PHYS + c)/f  =>  PHYS = (f*INT - c)/b
                 let inv = |y: f64| (c[5] * (y / c[1])) - c[2] / c[1];
@@ -436,9 +437,12 @@ pub fn run(args: &Args) -> Report {
         };
         cases.push(Case { carrier, dt, conv, exact: false });
     }
-    // b = 0 (outside the quantifier): totality only
+    // b = 0: a constant, not evaluated - no limit error whatever is declared, for every carrier and data type
     for carrier in 0..5 {
-        cases.push(Case { carrier, dt: 0, conv: Conv::RatFunc(Some([0.0, 0.0, 1.0, 0.0, 0.0, 1.0])), exact: false });
+        for dt in [0usize, 3, 7, 10] {
+            cases.push(Case { carrier, dt, conv: Conv::RatFunc(Some([0.0, 0.0, 1.0, 0.0, 0.0, 1.0])), exact: true });
+            cases.push(Case { carrier, dt, conv: Conv::RatFunc(Some([0.0, 0.0, -5.0, 0.0, 0.0, 2.0])), exact: false });
+        }
     }
     for (i, case) in cases.iter().enumerate() {
         let kind = match &case.conv {
